@@ -206,6 +206,9 @@ type Options struct {
 	// MainContext (with OnThread): the main state has a context of its own, which is never done; the
 	// thread's context replaces the one it inherited from the main state.
 	MainContext bool
+	// Bare: nothing is called on the state before the program runs (the libraries are opened by invoking their
+	// open functions directly, not through L.Call), so the program's entry is the first call ever made on it.
+	Bare bool
 }
 
 func defaultLuaOptions() lua.Options {
@@ -240,7 +243,14 @@ func NewHost(o Options) *Host {
 	}
 	lo.SkipOpenLibs = true
 	L := lua.NewState(lo)
-	openLibs(L)
+	if o.Bare {
+		for _, f := range []lua.LGFunction{lua.OpenPackage, lua.OpenBase, lua.OpenTable, lua.OpenString, lua.OpenCoroutine, lua.OpenMath} {
+			f(L)
+			L.SetTop(0)
+		}
+	} else {
+		openLibs(L)
+	}
 	h := &Host{L: L, ids: map[lua.LValue]int{}, MaxSteps: o.MaxSteps, Kind: o.Kind, At: o.At, TrackLimits: o.TrackLimits}
 	if o.WithContext && !o.OnThread {
 		h.Ctx = NewSimContext()
